@@ -2,6 +2,7 @@ import Seccomp.Model.Text
 import Seccomp.Model.Policy
 import Seccomp.Gen.Purity
 import Seccomp.Proofs.Lemmas.TextLemmas
+import Seccomp.Proofs.C14
 /-!
 # C13 — compilation is deterministic, side-effect free and race-free   (partial)
 
@@ -74,17 +75,21 @@ theorem action_text_function (order : List (Nat × String)) (h : order.Perm Gen.
   unfold actionStringWith
   rw [lookup_perm h action_keys_unique]
 
-/-- **`Action.Unpack` ranges over the map `actionNames` (regenerated fact) and still returns the same value for every
-    iteration order**, because the names are pairwise distinct: at most one entry matches. -/
+/-- **`Action.Unpack` ranges over the map `actionNames` and still returns the same value for every
+    iteration order**, because the names are pairwise distinct: at most one entry matches.  Stated for
+    the function body regenerated from the source (`Gen.actionUnpackSkel`, the `range` as a loop over the
+    entries in the given order): under every permutation of the table it stores and returns what the
+    reference does. -/
 theorem unpack_order_independent :
     Gen.actionUnpackRangeKind = "map" ∧
     ∀ (order : List (Nat × String)), order.Perm Gen.actionNames → ∀ rs,
-      unpackWith order Gen.actionUnpackLowersInput Gen.actionUnpackLowersName rs = unpackActionRunes rs := by
+      Gen.actionUnpackSkel order rs = toURes (unpackActionRunes rs) := by
   refine ⟨by decide, ?_⟩
   intro order h rs
+  rw [C14.action_unpack_tie]
+  congr 1
   unfold unpackActionRunes unpackWith
-  have hn : Gen.actionUnpackLowersName = false := by decide
-  simp only [hn, Bool.false_eq_true, if_false]
+  simp only [Bool.false_eq_true, if_false, if_true]
   rw [find?_perm h]
   intro x hx y hy hpx hpy
   apply action_names_unique x hx y hy
@@ -121,7 +126,7 @@ def policyMemoryTypes : List String := [
       use of `labelsAt[i]` is `for _, label := range labelsAt[i] { dest[label] = len(out) }`, which stores the *same* value for every
       label of the list (`labels_order_irrelevant` below);
     * `Action.Unpack`: `unpack_order_independent` above. -/
-def allowedMapRanges : List (String × String) := [("Program.Assemble", "p.labels"), ("Action.Unpack", "actionNames")]
+def allowedMapRanges : List (String × String) := [("Program.Assemble", "recv-ptr.labels"), ("Action.Unpack", "actionNames")]
 
 /-- package-level variables the compiler and the text conversions read: the name tables, `Operations`, the two `arch.Info` values compared
     by pointer, the alias map, the byte order determined in `init` -/
@@ -156,7 +161,9 @@ theorem labels_order_irrelevant (l₁ l₂ : List Nat) (h : l₁.Perm l₂) (v :
 /-- **The real compiler's call graph has no effect outside fresh memory** (regenerated syntactic summary, see the head of this file):
     1. the graph is the expected one (non-vacuity: it contains the group compiler and the label resolver);
     2. no `go` statement in any reachable function (compiler, text conversions, `arch.GetInfo`);
-    3. every `range` over a map is one of the two order-independent loops, and only `range p.labels` is in the compile graph;
+    3. every `range` over a map is one of the two order-independent loops, and only the range over the receiver's `labels` is in
+       the compile graph (assigned and ranged expressions are compared by their *path* — the root variable replaced by its kind
+       (receiver, parameter, local), field names kept — so that renaming a variable changes nothing);
     4. no store is rooted in a package-level variable or in an expression the translator could not resolve;
     5. in the compile graph the only store into an object of a type reachable from the caller's policy is `p.arch = arch`
        in `Policy.Assemble` (the unexported architecture cache — `arch` is not an exported field), so **no exported field
@@ -172,16 +179,16 @@ theorem compile_pure :
         "SyscallWithConditions.Assemble", "Program.Assemble", "ArgumentConditions.Validate", "arch.GetInfo"].all compileGraph.contains = true) ∧
     Gen.Purity.goStmts = [] ∧
     (∀ m ∈ Gen.Purity.mapRanges, (m.fn, m.text) ∈ allowedMapRanges ∧
-        (m.fn ∈ compileGraph → (m.fn, m.text) = ("Program.Assemble", "p.labels"))) ∧
+        (m.fn ∈ compileGraph → (m.fn, m.text) = ("Program.Assemble", "recv-ptr.labels"))) ∧
     (∀ s ∈ Gen.Purity.stores, s.rootKind ≠ "pkgvar" ∧ s.rootKind ≠ "complex") ∧
     (∀ s ∈ Gen.Purity.stores, s.fn ∈ compileGraph →
-        (s.objType ∈ policyMemoryTypes → (s.fn, s.text) = ("Policy.Assemble", "p.arch = arch")) ∧
+        (s.objType ∈ policyMemoryTypes → (s.fn, s.path) = ("Policy.Assemble", "recv-ptr.arch")) ∧
         (s.rootKind = "recv-ptr" ∨ s.rootKind = "param" ∨ s.rootKind = "recv-val" →
-            s.objType = "Program" ∨ s.objType = "map[Label][]Index" ∨ (s.fn, s.text) = ("Policy.Assemble", "p.arch = arch"))) ∧
+            s.objType = "Program" ∨ s.objType = "map[Label][]Index" ∨ (s.fn, s.path) = ("Policy.Assemble", "recv-ptr.arch"))) ∧
     (∀ c ∈ Gen.Purity.extCalls, c.fn ∈ compileGraph →
         c.callee ∈ readOnlyCallees ∨ (c.callee = "append" ∧ (c.dstType ∉ policyMemoryTypes ∨ c.dstFresh = true))) ∧
     (∀ s ∈ Gen.Purity.stores, s.fn ∉ compileGraph →
-        (s.fn, s.text) ∈ [("Action.Unpack", "*a = action"), ("Operation.Unpack", "*o = name")] ∨
+        (s.fn, s.path) ∈ [("Action.Unpack", "*recv-ptr"), ("Operation.Unpack", "*recv-ptr")] ∨
         (s.rootKind = "recv-val" ∧ s.deref = false)) ∧
     (∀ r ∈ Gen.Purity.pkgVarReads, r.2 ∈ allowedReads) ∧
     (∀ w ∈ Gen.Purity.pkgVarWrites, w.root ∈ allowedReads → w.fn.startsWith "init@" = true) := by
